@@ -10,7 +10,7 @@ TEXT = {
  "C04": ("Lean theorems: known-size histories hand out a gap-free increasing prefix, later accesses get larger positions; wrapper: per-thread increasing, outputs below yielded ≤ reserved ≤ any later ticket, critical section served in ticket order.", "§7 C04"),
  "C05": ("Lean theorems: the end is a fixpoint of the cursor for every continuation; `completed` is never reset and a pull that starts once it is set receives nothing, under every schedule.", "§7 C05"),
  "C06": ("Lean theorems: after the skip store every continuation delivers nothing (known size); wrapper: skip sets completed, afterwards starting pulls receive nothing; safety invariants hold in histories with skips.", "§7 C06"),
- "C07": ("Lean theorems: mutual exclusion of the critical section and of next() for all fused scripts (panics included), programs with skips, schedules; calls happen in position order. Happens-before is decided on recorded traces by vector clocks over the orderings the shim reports (partial: not yet a Lean theorem).", "§7 C07"),
+ "C07": ("Lean theorems: mutual exclusion of the critical section and of next() for all fused scripts (panics included), programs with skips, schedules; calls happen in position order. Happens-before: Lean theorem hb_chain (vector-clock ghost state over SC interleavings, C11 release/acquire through `yielded`) instantiated with the orderings extracted from the current source on every run; partial: SC interleavings only (stale-read executions are not modelled), synchronisation through `reserved`/`completed` ignored (conservative).", "§7 C07"),
  "C08": ("Lean theorems: consumed ∪ dropped-by-chunk = handed out; handed out ∪ dropped-by-Drop = 0..len exactly once for every program and schedule (no skip/get/wrap); open findings D5, D12 as kernel-checked witnesses.", "§7 C08"),
  "C09": ("Lean theorems: known-size wait-freedom (a called op completes with its next own step in every configuration; steps never touch other threads); wrapper: the ticket holder enters without waiting. Fair termination of the wrapper is checked on traces only (stuck detector), not yet proved.", "§7 C09"),
  "C10": ("Lean theorems: delivered ++ remainder = 0..len for every program and schedule; remainder empty after skip and always in range.", "§7 C10"),
